@@ -7,7 +7,8 @@ for l in open('/verif/properties.jsonl'):
     p = json.loads(l)
     if p['id'] == pid: break
 else: raise SystemExit('no such property')
-wt = f'/tmp/wt/{pid}'; out = f'/tmp/wt/out/{pid}'
+outroot = sys.argv[2] if len(sys.argv) > 2 else 'out'
+wt = f'/tmp/wt/{pid}'; out = f'/tmp/wt/{outroot}/{pid}'
 print(f"""You are helping to evaluate a verification tool for the Python library AnyIO (agronholm/anyio, asyncio backend; trio is NOT installed here). Your job is to play the role of a developer who introduces a subtle regression.
 
 You have your own scratch git worktree of the library at {wt} (source in {wt}/src/anyio, tests in {wt}/tests). Work ONLY inside {wt} and {out}. Never read, modify or run anything under /repo or /verif (they are off limits), and do not touch other directories under /tmp/wt. The machine has no network.
